@@ -81,12 +81,33 @@ func (f *Frame) calleeEnv(fc *FuncContract, callee *ssa.Function, sig *types.Sig
 	var pkg *ssa.Package
 	if callee != nil {
 		pkg = callee.Pkg
+	} else if fc != nil {
+		// interface-method contract: names resolve in the package declaring the interface
+		for _, p := range f.eng.Prog.SSA.AllPackages() {
+			if strings.HasPrefix(fc.Ref, p.Pkg.Path()+".") && (pkg == nil || len(p.Pkg.Path()) > len(pkg.Pkg.Path())) {
+				pkg = p
+			}
+		}
 	}
 	env := f.specEnv(st, old, pkg)
 	if callee != nil && callee.Blocks != nil {
 		for i, p := range callee.Params {
 			if i < len(args) {
 				env.vars[p.Name()] = env.sv(args[i], p.Type())
+			}
+		}
+		// a closure called directly: its captured variables are visible by name
+		if len(f.calleeBindings) == len(callee.FreeVars) {
+			for i, fv := range callee.FreeVars {
+				if pt, ok := fv.Type().Underlying().(*types.Pointer); ok {
+					env.vars["addr_"+fv.Name()] = env.sv(f.calleeBindings[i], fv.Type())
+					if env.cellVars == nil {
+						env.cellVars = map[string]sval{}
+					}
+					env.cellVars[fv.Name()] = sval{t: f.calleeBindings[i], typ: pt.Elem()}
+				} else {
+					env.vars[fv.Name()] = env.sv(f.calleeBindings[i], fv.Type())
+				}
 			}
 		}
 	} else {
@@ -259,6 +280,16 @@ func (env *SpecEnv) eval(e Expr) (sval, error) {
 		var binders []string
 		for _, qv := range x.Vars {
 			srt, ok := specSort(ctx, qv.Type)
+			var valTyp types.Type
+			if !ok && env.pkg != nil {
+				// a named (struct) type of the package, by value: `forall k sessionKey`
+				if obj := env.pkg.Pkg.Scope().Lookup(qv.Type); obj != nil {
+					if tn, isTN := obj.(*types.TypeName); isTN {
+						valTyp = tn.Type()
+						srt, ok = ctx.sortOf(valTyp), true
+					}
+				}
+			}
 			if !ok {
 				return sval{}, fmt.Errorf("unknown sort %q in quantifier", qv.Type)
 			}
@@ -266,7 +297,7 @@ func (env *SpecEnv) eval(e Expr) (sval, error) {
 				saved[qv.Name] = old
 			}
 			name := "q_" + qv.Name
-			qval := sval{t: name, sort: srt}
+			qval := sval{t: name, sort: srt, typ: valTyp}
 			// Go-typed bound variable (e.g. `forall ss *solicitState`): keep the type
 			// so fields and methods can be selected in the body.
 			if base := strings.TrimLeft(qv.Type, "*"); base != qv.Type && env.pkg != nil {
@@ -765,8 +796,8 @@ func (env *SpecEnv) evalCall(x *ECall) (sval, error) {
 				return sval{t: "(slen_ " + v.t + ")", sort: "Int"}, nil
 			case "Ptr":
 				if v.typ != nil {
-					if _, ok := v.typ.Underlying().(*types.Map); ok {
-						return sval{t: fmt.Sprintf("(ite (= %s nil) 0 (select %s %s))", v.t, f.heap(env.state(), "M_len"), v.t), sort: "Int"}, nil
+					if mt, ok := v.typ.Underlying().(*types.Map); ok {
+						return sval{t: fmt.Sprintf("(ite (= %s nil) 0 (select %s %s))", v.t, f.heap(env.state(), mapLenHeap(f.ctx, mt)), v.t), sort: "Int"}, nil
 					}
 				}
 			}
@@ -855,7 +886,20 @@ func (env *SpecEnv) evalCall(x *ECall) (sval, error) {
 				return sval{}, fmt.Errorf("isobj needs a pointer to a named struct type")
 			}
 			// ... that exists in the state the expression is evaluated in
-			return sval{t: fmt.Sprintf("(and (not (= %s nil)) (= (ppath %s) here) (= (objtype (pobj %s)) %d) (< (pobj %s) %s))", v.t, v.t, v.t, f.eng.typeID(nt), v.t, env.state().alloc), sort: "Bool"}, nil
+			return sval{t: fmt.Sprintf("(and (not (= %s nil)) (= (ppath %s) here) (= (objtype (pobj %s)) %d) (< (pobj %s) %s) (not (ismapobj (pobj %s))))", v.t, v.t, v.t, f.eng.typeID(nt), v.t, env.state().alloc, v.t), sort: "Bool"}, nil
+		case "wholeobj":
+			// wholeobj(p): p addresses a whole variable/object (not a field or element of one)
+			if len(x.Args) != 1 {
+				return sval{}, fmt.Errorf("wholeobj takes one argument")
+			}
+			v, err := env.eval(x.Args[0])
+			if err != nil {
+				return sval{}, err
+			}
+			if v.sort != "Ptr" {
+				return sval{}, fmt.Errorf("wholeobj of non-pointer")
+			}
+			return sval{t: fmt.Sprintf("(and (not (= %s nil)) (= (ppath %s) here))", v.t, v.t), sort: "Bool"}, nil
 		case "sliceobj":
 			// sliceobj(s): identity of the backing array of slice s (two slices with different
 			// sliceobj never share elements)
